@@ -9,7 +9,7 @@
 
 enum c16_opkind {
 	OP_DIR, OP_DATA, OP_BIGDATA, OP_KERNEL, OP_PERF, OP_META, OP_INFO,
-	OP_TASKFILE, OP_MAPFILES, OP_SYMFILES, OP_DBGFILES, OP_END, OP_SLEEP, OP_RAW, OP_ABORT,
+	OP_TASKFILE, OP_MAPFILES, OP_SYMFILES, OP_DBGFILES, OP_END, OP_SLEEP, OP_RAW, OP_ABORT, OP_POST, OP_WAIT,
 };
 
 struct c16_op {
